@@ -23,6 +23,7 @@ pub fn scenario_regime(tier: &str, poor_debt: bool) -> (Life, Bounds) {
         precommits: th,
         horizon: None,
         big: false,
+        tick_faults: false,
     };
     let b = if th {
         Bounds { max_depth: 400, wall_cap_s: 1500.0, ..Default::default() }
@@ -46,12 +47,31 @@ pub fn scenario_burst(tier: &str) -> (Life, Bounds) {
     (l, b)
 }
 
+/// Fault class F2: every nested send of every tick is failed, one at a time; the walk then
+/// continues for a proving period in recovery mode (default behaviour, model-free oracles).
+pub fn scenario_tick_faults(tier: &str) -> (Life, Bounds) {
+    let (mut l, mut b) = scenario(tier);
+    let th = tier_is_thorough(tier);
+    l.cfg.name = "c05-tick-faults";
+    l.cfg.bases = if th { vec!["one-deadline-aged", "two-deadlines", "long-faulty", "one-deadline-aged-f12"] } else { vec!["one-deadline-aged", "long-faulty"] };
+    l.cfg.devs = 1;
+    l.cfg.periods = if th { 2 } else { 1 };
+    l.cfg.horizon = Some(if th { 50 } else { 26 });
+    l.cfg.precommits = false;
+    l.cfg.tick_faults = true;
+    l.cfg.sector_sets = sets_small();
+    b.max_faults = 1;
+    b.wall_cap_s = if th { 900.0 } else { 30.0 };
+    (l, b)
+}
+
 pub fn run(tier: &str) -> ! {
     let (scn, b) = scenario(tier);
     let mut run = mcx::evidence::Run::new("C05", tier, "model_checking");
     run.assumptions = vec![
         "SMALL policy: same actor code with scaled protocol parameters (24-epoch proving period, 2 KiB sectors, partitions of 2); constants that are not policy (vesting spec, termination fee days) are as on mainnet".into(),
         "mcvm stands in for the FVM; proofs are faked (valid unless marked BAD); the real cron tick runs at every epoch".into(),
+        "fault class F2 (scenario c05-tick-faults): any one nested send of a tick fails (the callee does not run, the caller sees a non-zero exit code); judged: the tick as a whole succeeds, nothing panics or reports broken balance invariants, nothing fails except the failed send and the calls containing it, state invariants hold, and for the following proving period every tick succeeds completely and every miner that kept its claim is back on schedule".into(),
         "a second 'ballast' miner holds a large locked reward so that the network pledge total stays positive (see KF-1)".into(),
     ];
     run.add(mcx::explore(&scn, &b));
@@ -60,5 +80,7 @@ pub fn run(tier: &str) -> ! {
     let (scn2, mut b2) = scenario_regime(tier, true);
     b2.wall_cap_s = if tier_is_thorough(tier) { 900.0 } else { 30.0 };
     run.add(mcx::explore(&scn2, &b2));
+    let (sf, bf) = scenario_tick_faults(tier);
+    run.add(mcx::explore(&sf, &bf));
     run.finish()
 }
